@@ -8,7 +8,8 @@ CONSTANTS CharWs, TypeWs, DictNs, NDictsSet, CSets, TSets, WSets, Surplus, NTags
 VARIABLES cw, tw, dn, nd, cs, ts, ws, phase, ntags
 
 CPool == << <<97>>, <<12354>>, <<97, 12354>>, <<12354, 97>>, <<97, 12354, 97>>, <<97, 97>> >>
-TPool == << <<72>>, <<82>>, <<72, 82>>, <<82, 72, 72>>, <<75>>, <<68, 79>>, <<72, 4>>, <<4>>, <<75, 72>> >>
+TPool == << <<72>>, <<82>>, <<72, 82>>, <<82, 72, 72>>, <<75>>, <<68, 79>>, <<72, 4>>, <<4>>, <<75, 72>>,
+           <<84>>, <<84, 72>>, <<75, 84>> >>      \* 84 = 'T' (Katakana, whose converted type code is 4 - not the invalid code 0x04)
 WPool == << <<97>>, <<12354, 97>>, <<97, 12354, 97>>, <<97, 97, 97, 97>> >>
 Sel(pool, mask) == LET ids == {i \in 1..Len(pool) : BitSet(mask, i - 1)} IN [k \in 1..Cardinality(ids) |-> pool[SortedSeq(ids)[k]]]
 
@@ -25,7 +26,9 @@ KM ==
   [char_w |-> cw, type_w |-> tw, dict_n |-> dn, bias |-> -17,
    char_ngrams |-> [i \in 1..Len(cn) |-> [ng |-> cn[i], v |-> [k \in 1..(2 * cw - Len(cn[i]) + 1 + Surplus) |-> FPk(i, k)]]],
    type_ngrams |-> [i \in 1..Len(tn) |-> [ng |-> tn[i], v |-> [k \in 1..(2 * tw - Len(tn[i]) + 1 + Surplus) |-> FPk(10 + i, k)]]],
-   n_dicts |-> nd, dict_vec |-> [k \in 1..(3 * dn * nd) |-> FPk(20, k)],
+   \* dictionary weights: small mixed-sign fingerprints; with 3 dictionaries large positive and with 8 large negative values, so
+   \* that the sum over the dictionaries a word belongs to leaves the signed 16-bit range of the file's own numbers
+   n_dicts |-> nd, dict_vec |-> [k \in 1..(3 * dn * nd) |-> IF nd = 3 THEN 20000 + k ELSE IF nd = 8 THEN 0 - 20000 - k ELSE FPk(20, k)],
    \* masks: word i belongs to the dictionaries given by the bits of (i * 3 + 1), restricted to the existing ones
    words |-> IF nd = 0 THEN <<>> ELSE [i \in 1..Len(wd) |-> [w |-> wd[i], mask |-> (i * 3 + 1) % (2 ^ nd)]],
    ntags |-> ntags]
